@@ -41,11 +41,17 @@ type nbrSpec struct {
 	Size    int64
 }
 
+type relabelSpec struct {
+	Store  uint64
+	Labels [][2]string
+}
+
 type caseRec struct {
-	Nbrs   []nbrSpec // neighbour regions (merge checker behind CheckRegion)
-	Spec   gen10.ClusterSpec
-	Entry  string // "replica" | "rule" | "controller"
-	Result string // summary of the implementation's answer
+	Relabel *relabelSpec // rule entry: check once, relabel this store, check the SAME region object again on the same checker
+	Nbrs    []nbrSpec    // neighbour regions (merge checker behind CheckRegion)
+	Spec    gen10.ClusterSpec
+	Entry   string // "replica" | "rule" | "controller"
+	Result  string // summary of the implementation's answer
 }
 
 // buildMenv installs the neighbour regions and prints what the merge checker and fixRange read (real values)
@@ -199,7 +205,7 @@ type outcome struct {
 	viol    []res.Violation
 }
 
-func runCase(spec gen10.ClusterSpec, entry string, nbrs []nbrSpec) (o outcome) {
+func runCase(spec gen10.ClusterSpec, entry string, nbrs []nbrSpec, relabel *relabelSpec) (o outcome) {
 	bt := gen10.Build(spec)
 	defer bt.Cancel()
 	menv := buildMenv(bt, entry, nbrs)
@@ -249,7 +255,7 @@ func runCase(spec gen10.ClusterSpec, entry string, nbrs []nbrSpec) (o outcome) {
 			}
 			o = outcome{summary: fmt.Sprintf("PANIC %v", e), tags: []string{"result:panic"},
 				viol: []res.Violation{{Sig: "C10:checker-panics:" + site, Desc: fmt.Sprintf("the checker panics (%v) on entry %s", e, entry),
-					Replay: map[string]interface{}{"Spec": spec, "Entry": entry, "Nbrs": nbrs}}}}
+					Replay: map[string]interface{}{"Spec": spec, "Entry": entry, "Nbrs": nbrs, "Relabel": relabel}}}}
 		}
 	}()
 	switch entry {
@@ -267,7 +273,26 @@ func runCase(spec gen10.ClusterSpec, entry string, nbrs []nbrSpec) (o outcome) {
 		}
 	default:
 		if rules {
-			op = checker.NewRuleChecker(bt.TC, bt.TC.RuleManager, cache.NewDefaultCache(16)).Check(bt.Region)
+			rc := checker.NewRuleChecker(bt.TC, bt.TC.RuleManager, cache.NewDefaultCache(16))
+			if relabel != nil {
+				// first check with the old labels (its operator is dropped, as by the store limit), then the labels of a store change,
+				// then the SAME region object is checked again by the SAME checker: it has to act on the fit of the new labels
+				_ = rc.Check(bt.Region)
+				if st := bt.TC.GetStore(relabel.Store); st != nil {
+					var ls []*metapb.StoreLabel
+					for _, l := range relabel.Labels {
+						ls = append(ls, &metapb.StoreLabel{Key: l[0], Value: l[1]})
+					}
+					bt.TC.PutStore(st.Clone(core.SetStoreLabels(ls)))
+					for i := range bt.Spec.Stores {
+						if bt.Spec.Stores[i].ID == relabel.Store {
+							bt.Spec.Stores[i].Labels = relabel.Labels
+						}
+					}
+					input = bt.CoqInput(coqEntry, menv) // the fit is computed afresh by the real FitRegion for the new labels
+				}
+			}
+			op = rc.Check(bt.Region)
 		} else {
 			op = checker.NewReplicaChecker(bt.TC, cache.NewDefaultCache(16)).Check(bt.Region)
 		}
@@ -341,8 +366,8 @@ func main() {
 		Footer: "Definition M := Eval vm_compute in map fst (mismatches cases).\nDefinition D := Eval vm_compute in hd_error (mismatches cases).\nDefinition V := Eval vm_compute in monitor_fails cases.\nPrint M. Print D. Print V.\n"}
 
 	var all []caseRec
-	emit := func(spec gen10.ClusterSpec, entry string, nbrs []nbrSpec) outcome {
-		o := runCase(spec, entry, nbrs)
+	emit := func(spec gen10.ClusterSpec, entry string, nbrs []nbrSpec, relabel *relabelSpec) outcome {
+		o := runCase(spec, entry, nbrs, relabel)
 		for _, t := range spec.Tags {
 			R.Count(t)
 		}
@@ -364,7 +389,7 @@ func main() {
 		if err := cf.Add(o.coq); err != nil {
 			panic(err)
 		}
-		all = append(all, caseRec{nbrs, spec, entry, o.summary})
+		all = append(all, caseRec{relabel, nbrs, spec, entry, o.summary})
 		return o
 	}
 	for _, f := range []string{*corpus, *replay} {
@@ -385,7 +410,7 @@ func main() {
 			l = []caseRec{w.Replay}
 		}
 		for _, c := range l {
-			o := emit(c.Spec, c.Entry, c.Nbrs)
+			o := emit(c.Spec, c.Entry, c.Nbrs, c.Relabel)
 			if f == *replay {
 				fmt.Printf("entry=%s result: %s\n%s\n", c.Entry, o.summary, o.coq)
 			}
@@ -408,8 +433,24 @@ func main() {
 			if entry == "controller" {
 				nbrs = genNbrs(r, spec)
 			}
-			emit(spec, entry, nbrs)
+			var relabel *relabelSpec
+			if entry == "rule" && r.Pct(35) {
+				// relabel a store that holds a peer of the region (new zone / host values, sometimes none)
+				p := spec.Region.Peers[r.Intn(len(spec.Region.Peers))]
+				rl := &relabelSpec{Store: p.Store}
+				if r.Pct(85) {
+					rl.Labels = append(rl.Labels, [2]string{"zone", "z" + fmt.Sprint(1+r.Intn(4))})
+				}
+				if r.Pct(70) {
+					rl.Labels = append(rl.Labels, [2]string{"host", "h" + fmt.Sprint(1+r.Intn(3))})
+				}
+				relabel = rl
+			}
+			emit(spec, entry, nbrs, relabel)
 		}
+	}
+	if *replay == "" {
+		runReelections(R, *seed, 8)
 	}
 	if err := cf.Flush(); err != nil {
 		panic(err)
